@@ -2863,13 +2863,13 @@ impl Engine for Index {
             }
         }
         // --- threads with stack memory
-        let n = if tier == Tier::Quick { 9000 } else { 60000 };
+        let n = if tier == Tier::Quick { 24000 } else { 120000 };
         for i in 0..n {
             let cpu = [9u16, 0, 12, 9, 0, 12, 5, 1, 0x8003, 10, 3, 0x8001, 0x8002, 9, 12, 0][i % 16];
             emit(gen_stacks(rng, cpu, i % 3 != 0).line());
         }
         // --- random
-        let n = if tier == Tier::Quick { 24000 } else { 80000 };
+        let n = if tier == Tier::Quick { 30000 } else { 100000 };
         for i in 0..n {
             let big = i % 10 == 0;
             emit(gen_random(rng, &codes, big).line());
@@ -2878,7 +2878,7 @@ impl Engine for Index {
 
     fn exec(&self, case: &str) -> ImplResult {
         let Some(c) = parse_case(case) else {
-            return ImplResult { out: "bad-op".into(), ..Default::default() };
+            return ImplResult { out: "bad-op".into(), oracle: vec![("bad-case".into(), "unparsable case line".into())], ..Default::default() };
         };
         let seen = match catch(|| run_impl(&c)) {
             Ok(s) => s,
